@@ -1209,7 +1209,7 @@ class C08(ExpectSpec):
                   'rest from the state the first block left: doc_loop unfolding lemmas for each of the three dispatch branches), C08_blank_skip '
                   '(leading blank lines are skipped), C08_tables (names, tags and container/verbatim expansion of the generated block table). '
                   'C08_matcher_sound_and_complete, C08_match_iff, C08_search_complete, C08_patterns_exact (dispatch is first-match: the model\'s backtracking '
-                  'matcher finds a match exactly when one exists in the exact declarative semantics mx, for 79 of the 82 generated patterns). '
+                  'matcher finds a match exactly when one exists in the exact declarative semantics mx, for all 82 generated patterns). '
                   'C08_first_blocks_independent, C08_line_block_local, C08_delimited_block_local (a block that ends before the end of the input is '
                   'rendered the same, with the same session, whatever follows it: for every suffix, definition table and mode; C08_list_block_local '
                   'for lists). The per-kind functional equations are decided by the block-grammar oracle and correspondence.')
